@@ -752,6 +752,69 @@ func c04(c *Ctx) {
 		}
 		r.Check(len(adds) == 1 && !inLoop && okWhole, "C04.P8", sm.Name(), "the replies of an entry are stored as one batch", c.P.Pos(sm.Node().Pos()), "one OutputStream.Add, outside loops, of the whole converted slice",
 			"the replies of one entry are handed to the output stream in several Add calls (or only partly): batches are keyed by the entry's id, so each further chunk overwrites the previous one and the overwritten replies can never be delivered")
+		// P8b: nothing but "no replies" or "no output stream" (the throw-away server of a snapshot fold) keeps the batch from
+		// being stored, and a failed Add is fatal
+		sg := c.Graph(sm)
+		var outParam types.Object
+		for _, fld := range sm.FuncType().Params.List {
+			for _, nm := range fld.Names {
+				if astx.IsNamed(derefType(si.TypeOf(fld.Type)), pathOutput, "OutputStream") {
+					outParam = si.Defs[nm]
+				}
+			}
+		}
+		okLit := func(l lit) bool {
+			be, ok := ast.Unparen(l.E).(*ast.BinaryExpr)
+			if !ok {
+				return false
+			}
+			eq := (be.Op == token.EQL) == l.Pos
+			if be.Op != token.EQL && be.Op != token.NEQ {
+				return false
+			}
+			// len(<reply>.Messages) == 0
+			if lc, ok := ast.Unparen(be.X).(*ast.CallExpr); ok && astx.Builtin(si, lc) == "len" && len(lc.Args) == 1 {
+				if se, ok := ast.Unparen(lc.Args[0]).(*ast.SelectorExpr); ok && se.Sel.Name == "Messages" {
+					if z, ok := astx.ConstInt(si, be.Y); ok && z == 0 {
+						return eq
+					}
+				}
+			}
+			// o == nil
+			if id, ok := ast.Unparen(be.X).(*ast.Ident); ok && outParam != nil && astx.Obj(si, id) == outParam && isNilIdent(si, be.Y) {
+				return eq
+			}
+			return false
+		}
+		for _, rv := range sg.Returns() {
+			// a return that is not preceded by the Add
+			if len(adds) == 1 {
+				av := sg.VertexOf(adds[0])
+				if av >= 0 && sg.DominatedBy(rv.ID, func(x *cfgx.Vertex) bool { return x.ID == av }) {
+					continue
+				}
+			}
+			r.Check(implied(c.clausesAt(sm, sg, rv.ID), okLit), "C04.P8", sm.Name(), "the batch is dropped only when there are no replies or no output stream", c.P.Pos(rv.Node.Pos()), "return without Add under len(reply.Messages) == 0 || o == nil",
+				"sendMessages returns without storing the replies although there are replies and an output stream (test inverted or widened): the clients never receive the answer to their message")
+		}
+		if len(adds) == 1 {
+			av := sg.VertexOf(adds[0])
+			okNonNil := false
+			for _, cl := range c.clausesAt(sm, sg, av) {
+				if len(cl) == 1 {
+					if be, ok := ast.Unparen(cl[0].E).(*ast.BinaryExpr); ok {
+						if id, ok := ast.Unparen(be.X).(*ast.Ident); ok && outParam != nil && astx.Obj(si, id) == outParam && isNilIdent(si, be.Y) {
+							if (be.Op == token.EQL) != cl[0].Pos {
+								okNonNil = true
+							}
+						}
+					}
+				}
+			}
+			r.Check(okNonNil, "C04.P8", sm.Name(), "Add is reached only with an output stream", c.P.Pos(adds[0].Pos()), "dominated by o != nil",
+				"Add can be called on a nil output stream: the snapshot fold applies entries with o == nil, so compaction panics")
+		}
+		c.errorDiscipline("C04.P8", sm, "the replies of an entry are reported as stored although the output stream refused them")
 	} else {
 		r.Break("anchor function main.sendMessages not found in /repo")
 	}
